@@ -2,13 +2,14 @@ _P = 'xdoctest.parser:DoctestParser.'
 PROPERTY = {
     'id': 'C13',
     'extra': ['bounded.c08_lines.run'],
-    'contract_modules': ['doctest_example', 'doctest_part', 'parser'],
-    'functions': [_P + '_label_docsrc_lines#labels', 'xdoctest.parser:_complete_source',
+    'contract_modules': ['doctest_example', 'doctest_part', 'parser', 'collect'],
+    'functions': [_P + '_label_docsrc_lines#labels', 'xdoctest.parser:_complete_source', 'xdoctest.parser:_complete_source#steps', 'xdoctest.static_analysis:is_balanced_statement',
                   _P + '_package_groups#offsets', _P + '_package_chunk',
                   _P + 'parse', 'xdoctest.parser:_min_indentation', _P + '_label_docsrc_lines', _P + '_group_labeled_lines',
                   _P + '_package_groups'],
     'clauses': {
-        'P': ['_label_docsrc_lines: every line of the (tab-free) docstring gets exactly ONE label -- the number of labelled lines equals the '
+        'P': ['_complete_source, step by step: it yields the line it is given, then -- while the statement is not balanced -- takes exactly one further line from the shared iterator per step and yields it (with its indentation removed; an unprefixed continuation of a triple-quoted string gets a "... " prefix); terminates (the iterator only moves forward)',
+              '_label_docsrc_lines: every line of the (tab-free) docstring gets exactly ONE label -- the number of labelled lines equals the '
               'number of lines consumed from the shared line iterator at every loop head and equals the number of lines at the end -- and the '
               'line stored with the first label of an iteration is the line itself, unmodified',
               'the label of each line taken by the main loop is S.next_label(previous label, line, indentation of the open example), written '
